@@ -116,25 +116,26 @@ class ConstraintKMeans(KMeans):
         """
         max_iter = self.max_iter
         self.max_iter //= 2
-        if self.kmeans0:
-            try:
+        try:
+            if self.kmeans0:
                 KMeans.fit(self, X, y, sample_weight=sample_weight)
-            finally:
-                self.max_iter = max_iter
-            state = None
-        else:
-            state = numpy.random.RandomState(self.random_state)
-            labels = state.randint(0, self.n_clusters, X.shape[0], dtype=numpy.int32)
-            centers = numpy.empty((self.n_clusters, X.shape[1]), dtype=X.dtype)
-            choice = state.randint(0, self.n_clusters, self.n_clusters)
-            for i, c in enumerate(choice):
-                centers[i, :] = X[c, :]
-            self.labels_ = labels
-            self.cluster_centers_ = centers
-            self.inertia_ = float(X.shape[0])
-            self.n_iter_ = 0
+                state = None
+            else:
+                state = numpy.random.RandomState(self.random_state)
+                labels = state.randint(
+                    0, self.n_clusters, X.shape[0], dtype=numpy.int32
+                )
+                centers = numpy.empty((self.n_clusters, X.shape[1]), dtype=X.dtype)
+                choice = state.randint(0, self.n_clusters, self.n_clusters)
+                for i, c in enumerate(choice):
+                    centers[i, :] = X[c, :]
+                self.labels_ = labels
+                self.cluster_centers_ = centers
+                self.inertia_ = float(X.shape[0])
+                self.n_iter_ = 0
+        finally:
+            self.max_iter = max_iter
 
-        self.max_iter = max_iter
         return self.constraint_kmeans(
             X,
             sample_weight=sample_weight,
